@@ -229,7 +229,7 @@ func init() {
 		explanation:     "Turn-taking multi-connection histories with per-connection sessions in the model; flushes while other connections are inside MULTI or hold WATCHes are included, flushes while others are blocked are part of C11/C12's concurrent workloads.",
 		assumptions: []string{
 			"the reference model's per-connection session (selected database, name, MULTI queue, watches) follows the Redis 7 documentation",
-			"SELECT queued inside MULTI is not generated: Redis applies it when EXEC runs, the emulator binds each queued command to the database selected when it was queued (recorded as a relaxation in DESIGN.md, the property text does not cover it)",
+			"SELECT queued inside MULTI follows Redis: it is answered QUEUED and takes effect at its place in the queue when EXEC runs (the emulator used to bind every queued command to the database selected while queueing; repaired)",
 		},
 	})
 	regProp(&propDef{
